@@ -44,4 +44,10 @@ InitOnly == phase = "insert" /\ k = 1
 EmitInv == (Emit /\ phase = "insert" /\ k = 1 /\ ~KnifeEdge) =>
               PrintT(ToJson([pos |-> pos, el |-> el, order |-> order,
                              bonds |-> AllPairsBonds, bridged |-> AllPairsBridged]))
+(* exact ties: placements with a pair exactly on a threshold (the criterion is a strict "closer than"); only placements
+   whose coordinates are multiples of 0.5 A are emitted for replay, so that the tie is exact in binary floating point *)
+MC_DispTies == Sym({0, 150, 200, 250})
+EmitTies == (Emit /\ phase = "insert" /\ k = 1 /\ KnifeEdge) =>
+              PrintT(ToJson([pos |-> pos, el |-> el, order |-> order,
+                             bonds |-> AllPairsBonds, bridged |-> AllPairsBridged]))
 =============================================================================
